@@ -112,7 +112,8 @@ def hostile_modules(draw, pep701=True):
             # numeric payloads for the folder
             lines.append('v%d = %s' % (i, draw(st.sampled_from(['1 .__class__', '(1).real + 2', '1 + 2 * 3', 'True + True', '2 ** 8 - 1', '1 if 2 else 3',
                                                                 '0x10 + 0o7', '1e3 * 2', '"a" * 3', '1 + __import__("%s").x' % CANARY, '(1, 2)[0] + 3',
-                                                                '1 + (lambda: 2)()', 'len("ab") + 1']))))
+                                                                '1 + (lambda: 2)()', 'len("ab") + 1', '1e999 + 2j', '2j * 1e999', '(1e999 - 1e999) + 1j', '1e999j - 1e999j', '1 + 1e999', '1e999 - 1e999',
+                                                                '0x1f + 0o17 + 1e999 + 2j', '-1e999 - 2j', '1e999 * 0 + 0j']))))
         elif k == 9 and draw(st.booleans()):
             # the names whose values the minifier looks at (a literal __all__ is read to keep exported names): anything that is not a plain
             # string literal there is input text like any other
